@@ -207,7 +207,8 @@ def PROOFS():
     from ..contracts import transforms_c
     T = "formulae.transforms."
     return [("vf.contracts.transforms_c", [T + "Center.__call__", T + "Scale.__call__", T + "BSpline.__call__", T + "BSpline._initialize", T + "BSpline.eval",
-                                           T + "Polynomial.__init__"])]
+                                           T + "Polynomial.__init__"]),
+            ("vf.contracts.lemmas_c", ["vf.proplemmas.c06.bspline_rows"])]
 
 
 def run(report, findings):
